@@ -210,6 +210,10 @@ def run(chk):
             chk.violation("purge changed something other than the backup", d)
         if cmd in ("restore1", "restore0") and before[8] is None and (after != before or calls):
             chk.violation("restore without a backup changed something", d)
+        if cmd == "install" and all(before[j] is not None for j in range(4, 8)) and before[4] < 1000 and after[:4] != before[4:8]:
+            chk.violation("install did not place exactly the packaged files", d, expected=before[4:8], observed=after[:4])
+        if cmd == "uninstall_package" and any(after[j] is not None for j in range(3)):
+            chk.violation("uninstall in package mode left installed files in place", d, expected=[None, None, None], observed=after[:3])
     # oracle: the round trip on the implementation
     rt = 0
     i = 0
